@@ -798,6 +798,12 @@ class Harness:
                     bad = pos
                     break
                 node = self.child_at(node, pos)
+            right_type = isinstance(bad, str) if node.kind == "frame" else (isinstance(bad, int) and not isinstance(bad, bool))
+            if not right_type:
+                # a position of another container's type (a saved path applied after the tree changed shape):
+                # outside the documented input domain, see bad_value()
+                self.count(f"{label}:foreign-position-type")
+                return
             self.report(
                 Violation(
                     "invalid-assign-indexerror",
